@@ -74,6 +74,23 @@ def check_case(case, acc):
 
     try:
         frames, paths = build(case, work)
+        if case.get("history"):
+            # an earlier analysis, in this process, of ANOTHER export under the same paths (same rows, the label column in
+            # reversed order): nothing mokapot remembers about those files may reach this analysis
+            prev = []
+            for (df, spec), p in zip(frames, paths):
+                old = df.copy()
+                old["Label"] = old["Label"].values[::-1].copy()
+                write_table(old, p)
+                prev.append(make_dataset(old, p, features=["f_key", "f2"], spectrum=spec, write=False))
+            try:
+                mokapot.brew(prev, model=make_model(case.get("est", "linear"), first_only=case["first_only"]), test_fdr=case["fdr"],
+                             folds=case["folds"], max_workers=1, rng=case.get("seed", 1))
+                acc.count("history_prior_analyses_completed")
+            except (RuntimeError, ValueError):
+                acc.count("history_prior_analyses_refused")
+            for (df, spec), p in zip(frames, paths):
+                write_table(df, p)
         dsets = [make_dataset(df, p, features=["f_key", "f2"], spectrum=spec, write=False)
                  for (df, spec), p in zip(frames, paths)]
         model = make_model(case.get("est", "linear"), first_only=case["first_only"], **({"train_fdr": case["train_fdr"]} if "train_fdr" in case else {}))
@@ -91,6 +108,12 @@ def check_case(case, acc):
                 if ref == "result_full":
                     add("explicit-error-only-with-chunked-prediction", f"brew raised '{str(e)[:120]}' when the table is predicted "
                         f"in chunks of {case['pred_chunk']} rows, while every fold accepts targets when it is predicted in one piece")
+            elif case.get("history"):
+                # the error is allowed only when a fold accepts no target: the same analysis without the earlier one decides
+                ref = check_case({k: v for k, v in case.items() if k != "history"}, Acc())
+                if ref == "result_full":
+                    add("explicit-error-only-after-earlier-analysis", f"brew raised '{str(e)[:120]}' after another export under the "
+                        "same path(s) had been analysed in this process, while the same analysis alone calibrates every fold")
             elif case["fdr"] < 1e-3 and "calibrate" not in str(e) and "eval_fdr" not in str(e) and "train" not in str(e).lower():
                 add("wrong-explicit-error", f"expected the calibration error, got: {e}")
             return cls
@@ -201,6 +224,9 @@ def run(ctx):
                 for fdr in FDRS:
                     cases.append(dict(mults=list(mv), offset=off, folds=3, fdr=fdr, first_only=True, files=files))
             cases.append(dict(mults=list(mv), offset=off, folds=3, fdr=1e-4, first_only=True))
+            for fdr in (0.13, 0.25):  # the same paths were analysed before with other content
+                for files in (1, 2):
+                    cases.append(dict(mults=list(mv), offset=off, folds=3, fdr=fdr, first_only=True, files=files, history=True))
     if not ctx.quick:
         cases += [dict(c, seed=7) for c in cases if c["fdr"] in (0.13, 0.51) and c["first_only"]]
     cases = ctx.rotate(cases)
